@@ -94,7 +94,10 @@ PROPS = {
             "rule": ("case = (n, limit, plus, history of regret_min_iteration calls); n=3 limits 1..8 ×3 histories, n=4 limits {1,2,5,9,10,12} (thorough: all 1..12, n=5 limits 1..3) × plain/plus; "
                      "terminal losses non-negative multiples of 1/8 or sparse 0/1; used_actions = all coalition sets of size min(limit,m), shuffled, sometimes partial / with dropped singletons; "
                      "exact comparison of structure and error kinds, float32 numbers vs exact Rat with tolerance 1e-5·max(1,‖·‖∞) and a float-tie guard; save/load through /tmp; non-trivial = "
-                     "constructed, ≥2 iterations, some node non-uniform and some node with revealed coalitions on the uniform fallback; distinct by (n, limit, plus, history)"),
+                     "constructed, ≥2 iterations, some node non-uniform and some node with revealed coalitions on the uniform fallback; distinct by (n, limit, plus, history); "
+                     "every checkpoint is loaded three times (twice at once, once after the first loaded minimiser ran on) and compared with a deep copy taken at save time and with a "
+                     "never-saved twin; plus 6 ensembles (thorough: 30) of 2–4 minimisers and checkpoints of them alive at once (same/different n, plain/plus) with iterations, strategy / "
+                     "average queries, saves and loads interleaved, each member against its own model instance, its own oracle and its solo run, bit for bit"),
             "assumptions": ["float32 rounding is outside the theorems", "np.save / np.load / json trusted",
                             "the induction over whole iterations (tree_invariant) is for the repaired policy: stored limit ≤ min(m, limit) and a rank table covering every id"],
             "trusted": ["table length and stored limit are read off the real object and fed to the model (Policy.explicit)"]},
